@@ -64,8 +64,10 @@ func (cr *CRAuthenticator) Authenticate(sid wamp.ID, details wamp.Dict, client w
 
 	// Get the key and authrole needed for signing the challenge string.
 	key, err := cr.keyStore.AuthKey(authid, cr.AuthMethod())
-	if err != nil {
-		// Do not error here since that leaks authid info.
+	if err != nil || len(key) == 0 {
+		// Do not error here since that leaks authid info. A key store that
+		// has no key but reports no error is treated the same: a response
+		// computed with an empty key must never be accepted.
 		keyStr, _ := nonce()
 		if keyStr == "" {
 			keyStr = wamp.NowISO8601()
